@@ -210,6 +210,15 @@ func runZCutScenario(seed int64) *scenario {
 			// it can only be right when the transport itself ended cleanly
 			fail("JoinMessages ended with io.EOF after %d of %d bytes although the transport failed with %v", len(got), len(want), t.term)
 		}
+		prevEnd := 0
+		for i, m := range msgs {
+			if err == io.EOF && prevEnd < cut && cut < m.end {
+				// C05: the transport ended (however) strictly inside message i: the joined stream must end with
+				// an error a reader cannot mistake for "no more messages"
+				fail("JoinMessages ended with io.EOF after %d bytes although the transport ended inside message %d (offset %d of %d..%d): a partial message passes for the clean end of the stream", len(got), i, cut, prevEnd, m.end)
+			}
+			prevEnd = m.end
+		}
 		if err == io.EOF && len(got) < len(want) && cut == len(stream) {
 			fail("JoinMessages ended with io.EOF after %d bytes although all %d messages (%d bytes with terminators) had arrived", len(got), len(msgs), len(want))
 		}
